@@ -151,6 +151,10 @@ fn num(v: &CellValue) -> Option<f64> {
     }
 }
 
+/// Documented return types of WEEKDAY: 1/17 Sunday = 1; 2/11 Monday = 1; 3 Monday = 0; 12..16 the
+/// week starts on Tuesday .. Saturday (= 1).
+const WEEKDAY_TYPES: [i32; 10] = [1, 2, 3, 11, 12, 13, 14, 15, 16, 17];
+
 /// Model-level agreement for a list of serials: YEAR/MONTH/DAY/WEEKDAY/DATE, formatted value and
 /// typed ISO date.
 fn check_model(serials: &[i64]) -> Outcome {
@@ -174,6 +178,9 @@ fn check_model(serials: &[i64]) -> Outcome {
             set(&mut model, 6, format!("=DATE({y},{m},{d})"))?;
             set(&mut model, 7, iso(y, m, d))?;
             set(&mut model, 8, format!("=TEXT(A{row},\"yyyy-mm-dd\")"))?;
+            // every documented numbering of WEEKDAY, as one string of digits
+            let types: Vec<String> = WEEKDAY_TYPES.iter().map(|t| format!("WEEKDAY(A{row},{t})")).collect();
+            set(&mut model, 9, format!("={}", types.join("&")))?;
         }
         model.evaluate();
         for (i, &n) in serials.iter().enumerate() {
@@ -195,6 +202,25 @@ fn check_model(serials: &[i64]) -> Outcome {
                         format!("serial {n} ({}): {name} gives {v:?}, reference {want}", iso(y, m, d)),
                     ));
                 }
+            }
+            let v = get(9)?;
+            let w0 = ref_weekday(n) as i64 - 1; // Sunday = 0
+            let want: String = WEEKDAY_TYPES
+                .iter()
+                .map(|t| match t {
+                    1 | 17 => w0 + 1,
+                    2 | 11 => (w0 + 6) % 7 + 1,
+                    3 => (w0 + 6) % 7,
+                    // 12..16: the week starts on Tuesday .. Saturday
+                    _ => (w0 - (*t as i64 - 10) + 7) % 7 + 1,
+                })
+                .map(|d| d.to_string())
+                .collect();
+            if v != CellValue::String(want.clone()) {
+                return Err((
+                    "model:WEEKDAY-return-types".to_string(),
+                    format!("serial {n} ({}): WEEKDAY with return types {WEEKDAY_TYPES:?} gives {v:?}, reference digits {want}", iso(y, m, d)),
+                ));
             }
             // typed ISO date: must be recognised as that serial. Years before 1900 are outside
             // what the typed-date recogniser is documented to accept: only "if number then equal".
